@@ -7,8 +7,8 @@ from lib import tracked, noisefake
 from lib.probes import Probe
 
 PID = "C12"
-GEN = ["lockcfg"]
-LEAN_MODULES = ["YowsupVerif.Props.C12", "YowsupVerif.Props.C12Seg"]
+GEN = ["lockcfg", "sendnumbering"]
+LEAN_MODULES = ["YowsupVerif.Props.C12", "YowsupVerif.Props.C12Seg", "YowsupVerif.Props.C12Numbering"]
 RULE = ("operation sequences of length 2..7 on the real default stack [bottom probe, segments, noise (real protocol state machine, tagging "
         "transport), coder, logger, axolotl control, (axolotl send|receive), (protocol layers), top probe]: fault-free send / receive, and the "
         "property's own failure kinds at every layer position — down: unencodable value (coder raises), oversized frame (segment layer's size "
@@ -51,10 +51,12 @@ class Boom(Exception):
 
 class Bottom(Probe):
     armed = False
+    write_failed = False  # a socket write failed since the flag was last cleared (the connection is gone)
     fail_tags = ()        # a write whose bytes contain one of these fails (a pong for a particular ping, whenever it is flushed)
 
     def send(self, data):
         if self.armed or any(t in bytes(data) for t in self.fail_tags):
+            self.write_failed = True
             raise Boom("write error")
         self.sent.append(data)
 
@@ -135,6 +137,15 @@ def cases(chk):
     for disp, exc in ([("socket", "RuntimeError"), ("socket", "KeyError"), ("asyncore", "RuntimeError")] if chk.quick() else
                       [(d_, e_) for d_ in ("socket", "asyncore") for e_ in ("RuntimeError", "ValueError", "KeyError", "AttributeError")]):
         yield "dispatchers", {"dispatcher": disp, "exc": exc}
+    # the peer resets the connection and a write is the first to notice (asyncore calls handle_close from inside the send)
+    for en in ("ECONNRESET", "EPIPE", "ENOTCONN", "ECONNABORTED"):
+        for first in ("send-then-reset", "buffered-then-flush"):
+            yield "sockreset", {"errno": en, "steps": [first, "send", "flush", "send"]}
+    # message numbering of the downward path: refused (oversized) and accepted sends in any order; the transport stand-in numbers its messages
+    yield "numbering", {"sizes": ["big", "small"]}
+    yield "numbering", {"sizes": ["small", "edge", "small", "big", "small"]}
+    for _ in range(chk.scale(4, 40)):
+        yield "numbering", {"sizes": [r.choice(["small", "small", "big", "edge", "under"]) for _i in range(r.randint(2, 5))]}
     # the keep-alive's bookkeeping across failures while an answer is handled
     yield "keepalive", {"rounds": ["pong-callback-raises", "pong", "pong"]}
     yield "keepalive", {"rounds": ["pong", "pong-callback-raises", "pong-callback-raises", "pong"]}
@@ -168,7 +179,7 @@ def cases(chk):
 
 
 def nontrivial(stream, case):
-    if stream in ("concurrent", "coalesced", "segfail", "dispatchers", "keepalive"):
+    if stream in ("concurrent", "coalesced", "segfail", "dispatchers", "keepalive", "numbering", "sockreset"):
         return repr(case)
     return (tuple(case["ops"]), tuple(case["threads"]))
 
@@ -580,7 +591,155 @@ def run_keepalive(chk, case):
     return fails
 
 
+def run_sockreset(chk, case):
+    """the real asyncore dispatcher over a socket whose send fails with a disconnect errno (the peer reset the connection and a WRITE is the
+    first to notice): asyncore then calls handle_close() from inside the send.  The failure must end in the connection being reported down,
+    nothing may block and no lock may stay held; later sends return (they are dropped: the connection is down)."""
+    import errno
+    from gen.sendbufcfg import make_dispatcher
+    fails = []
+    del tracked.REGISTRY[:]
+
+    def factory(real):
+        l = tracked.TrackedLock()
+        l.reentrant = type(real).__name__ == "RLock"
+        if l.reentrant:
+            # (same-thread re-acquisition of an RLock is legal; operations are issued one at a time here)
+            orig_acq, orig_rel = l.acquire, l.release
+            depth = [0]
+
+            def acquire(blocking=True, timeout=-1):
+                if l.held:
+                    depth[0] += 1
+                    return True
+                return orig_acq(blocking, timeout)
+
+            def release():
+                if depth[0]:
+                    depth[0] -= 1
+                    return
+                orig_rel()
+            l.acquire, l.release = acquire, release
+            l.__class__ = type("RTracked", (tracked.TrackedLock,), {"__enter__": lambda self: (self.acquire(), self)[1], "__exit__": lambda self, *a: self.release()})
+        return l
+    d, a, b = make_dispatcher(lock_factory=factory)
+    downs = []
+
+    class CB(object):
+        def onConnected(self):
+            pass
+
+        def onConnecting(self):
+            pass
+
+        def onDisconnected(self):
+            downs.append(1)
+
+        def onRecvData(self, data):
+            pass
+
+        def onConnectionError(self, e):
+            downs.append(1)
+    d.connectionCallbacks = CB()
+
+    class ResetSock(object):
+        """the dispatcher's socket from the moment the peer has reset the connection"""
+        def __init__(self, real):
+            self._real = real
+
+        def send(self, data, *a_):
+            raise OSError(getattr(errno, case["errno"]), "connection reset by peer")
+
+        def __getattr__(self, n):
+            return getattr(self._real, n)
+    steps = list(case["steps"])
+    chk.hit("sockreset:" + case["errno"], "sockreset:via=" + steps[0])
+    try:
+        for si, st in enumerate(steps):
+            res = "ok"
+            try:
+                if st == "send-then-reset":
+                    d.socket = ResetSock(d.socket)
+                    d.sendData(b"frame-%d" % si)
+                elif st == "buffered-then-flush":
+                    # bytes accepted into the buffer while the socket was busy, the loop thread's flush is the first to hit the reset
+                    with d._send_lock:
+                        d.out_buffer = d.out_buffer + b"pending"
+                    d.socket = ResetSock(d.socket)
+                    d.handle_write()
+                elif st == "send":
+                    d.sendData(b"later-%d" % si)
+                elif st == "flush":
+                    d.handle_write()
+            except tracked.BlockedForever as e:
+                res = "blocked: %s" % e
+            except Exception as e:
+                res = "raised %s" % type(e).__name__
+            held = [l.name for l in tracked.held_locks()]
+            if res.startswith("blocked"):
+                fails.append(oracle("C12:blocks-forever", "asyncore dispatcher, socket send fails with %s, steps %s: step #%d (%s) never completes: %s" % (case["errno"], steps, si, st, res)))
+                break
+            if held:
+                fails.append(oracle("C12:lock-leak:dispatcher", "asyncore dispatcher, socket send fails with %s, steps %s: after step #%d (%s, %s) these locks stay held: %s"
+                                    % (case["errno"], steps, si, st, res, ", ".join(held))))
+                break
+            if si == 0 and len(downs) != 1:
+                fails.append(oracle("C12:reset-not-reported", "asyncore dispatcher, socket send fails with %s at step %s: the connection was reported down %d time(s)" % (case["errno"], st, len(downs))))
+                break
+    finally:
+        tracked.release_all()
+        for s_ in (a, b):
+            try:
+                s_.close()
+            except Exception:
+                pass
+        try:
+            d.del_channel()
+        except Exception:
+            pass
+    return fails
+
+
+_SIZES = {"small": 10, "under": 16777216 - 17, "edge": 16777216 - 16, "big": 16777216 + 5}
+
+
+def run_numbering(chk, case):
+    """payloads of chosen sizes pushed into the real noise layer (transport stand-in that numbers its messages, real segment layer below):
+    after every send the numbers taken and the numbers written are compared with Model/SendNumbering.lean; the frames on the wire must be
+    numbered 0, 1, 2, ... (the peer counts what it receives)"""
+    from lib.probes import sandwich
+    from yowsup.layers.noise.layer import YowNoiseLayer
+    from yowsup.layers.noise.layer_noise_segments import YowNoiseSegmentsLayer
+    fails = []
+    noise = YowNoiseLayer()
+    _stack, bottom, _top = sandwich(YowNoiseSegmentsLayer(), noise, props={YowNoiseSegmentsLayer.PROP_ENABLED: True})
+    tr = noisefake.to_transport(noise)
+    chk.driver.ask("locks numreset")
+    for i, k in enumerate(case["sizes"]):
+        n = _SIZES[k]
+        chk.hit("numbering:" + k)
+        try:
+            noise.send(bytes(n))
+            res = "written"
+        except ValueError:
+            res = "refused"
+        impl = "%s next=%d wire=%s" % (res, tr.sent, ",".join(map(str, tr.written)))
+        model = chk.driver.ask("locks numsend %d" % n)
+        del bottom.sent[:]
+        if impl != model:
+            fails.append(corr("numbering", "sizes %s, send #%d (%d bytes): impl=%s model=%s" % (case["sizes"], i, n, impl, model)))
+        if tr.written != list(range(len(tr.written))):
+            fails.append(oracle("C12:later-send-undecryptable", "payload sizes %s: after send #%d the frames on the wire carry the cipher's message numbers %s — the peer, which counts what it "
+                                "receives, cannot decrypt from the first gap on (a refused send used up a number)" % ([_SIZES[x] for x in case["sizes"]], i, tr.written)))
+            break
+    return fails
+
+
 def run_case(chk, stream, case):
+    if stream == "sockreset":
+        return run_sockreset(chk, case)
+    if stream == "numbering":
+        return run_numbering(chk, case)
     if stream == "keepalive":
         return run_keepalive(chk, case)
     if stream == "dispatchers":
@@ -672,6 +831,11 @@ def run_case(chk, stream, case):
         except Exception as e:
             res, err = "raised", e
         bottom.armed = top.armed = False
+        if bottom.write_failed and hasattr(noise._wa_noiseprotocol._transport, "written"):
+            bottom.write_failed = False
+            # a failed socket write means the connection is gone: the next session starts with fresh cipher states (message numbers restart)
+            tr_ = noise._wa_noiseprotocol._transport
+            tr_.sent, tr_.nonces, tr_.written = 0, [], []
         if kind == "send-not-ready":
             noisefake.to_transport(noise)                      # reconnect: session up again
         held = [1 if (l is not None and l.held) else 0 for l in layer_lock]
@@ -717,6 +881,12 @@ def run_case(chk, stream, case):
         elif kind.startswith("send") and kind != "send-ok" and res == "raised" and len(bottom.sent) - nb != 0:
             what = ("C12:failed-send-leaves-bytes-on-the-wire", "op #%d %s was refused with an error, yet %d chunk(s) (%s bytes) of it reached the network: the peer reads the next "
                     "frame at the wrong offset" % (opi, kind, len(bottom.sent) - nb, [len(x) for x in bottom.sent[nb:]]))
+        elif kind == "send-ok" and getattr(noise._wa_noiseprotocol._transport, "written", None) is not None and \
+                noise._wa_noiseprotocol._transport.written != list(range(len(noise._wa_noiseprotocol._transport.written))):
+            tr_ = noise._wa_noiseprotocol._transport
+            what = ("C12:later-send-undecryptable", "op #%d %s reached the network encrypted under message number %d, but it is message number %d on the wire: an earlier, refused "
+                    "send used up a number of the cipher without writing anything, so the peer (which counts what it receives) cannot decrypt this or any later frame"
+                    % (opi, kind, tr_.written[-1], len(tr_.written) - 1))
         elif kind == "send-ok" and len(bottom.sent) - nb != 2:
             what = ("C12:followup-incomplete", "fault-free send wrote %d chunks to the network instead of header+payload" % (len(bottom.sent) - nb))
         elif kind.startswith("recv") and res != "blocked" and got_from != want_from:
@@ -732,7 +902,13 @@ def run_case(chk, stream, case):
 
 
 def shrink(stream, case):
-    if stream in ("concurrent", "dispatchers"):
+    if stream in ("concurrent", "dispatchers", "sockreset"):
+        return
+    if stream == "numbering":
+        zs = case["sizes"]
+        for i in range(len(zs)):
+            if len(zs) > 1:
+                yield dict(case, sizes=zs[:i] + zs[i + 1:])
         return
     if stream == "keepalive":
         rs = case["rounds"]
